@@ -107,10 +107,15 @@ class _KexRSA(Kex):
         except KeyImportError:
             raise ProtocolError('Invalid KEXRSA pubkey msg') from None
 
-        trans_key = cast(RSAKey, pubkey)
+        if not isinstance(pubkey, RSAKey):
+            raise ProtocolError('Invalid KEXRSA pubkey msg')
+
         self._k = randrange(self._k_limit)
-        self._encrypted_k = \
-            cast(bytes, trans_key.encrypt(MPInt(self._k), self.algorithm))
+        encrypted_k = pubkey.encrypt(MPInt(self._k), self.algorithm)
+        if not encrypted_k:
+            raise KeyExchangeFailed('Key exchange encryption failed')
+
+        self._encrypted_k = encrypted_k
 
         self.send_packet(MSG_KEXRSA_SECRET, String(self._encrypted_k))
 
